@@ -341,6 +341,13 @@ def c02(tier, seed):
                         tier="quick" if n <= 8 else "thorough", n=n, fam="kernel", level="kernel", mem=mem_for(n),
                         covers={"reached": "SATISFIED", "low word all ones": "SATISFIED", "wrapped to zero": "SATISFIED"},
                         what="operations::next_inplace n=%d: the successor of an arbitrary well-formed table is well-formed" % n))
+    # canonization results are well-formed (end-to-end harnesses shared with C04/C05, small sizes)
+    for h in c04_e2e("C02"):
+        if h["n"] <= 2 and h["fam"].startswith("s"):
+            out.append(h)
+        elif h["n"] == 3 and h["fam"].startswith("s") and "npn" not in h["name"]:
+            h["tier"] = "thorough"
+            out.append(h)
     # the parser: every Ok value of from_hex_string is well-formed (harness shared with C09)
     for h in c09_parse_specs(kinds=("s", "d"), nmax_quick=5, nmax=6):
         if h["fam"] in ("d3", "d5"):
@@ -475,7 +482,7 @@ def c10(tier, seed):
         out.append(spec("verif_c10", "c10.rs", "c10_conv", "c10_conv_%s" % fam, [fam], max(8 * T(n), 128) + 3,
                         tier=tr, n=n, fam=fam, mem=mem_for(n), timeout=900 if q else 3000,
                         what="Lut%d: Lut::from(a) has %d variables and the same blocks; Lut%d::try_from is its inverse; try_from(Lut of any other size 0..13) is Err without panicking" % (n, n, n)))
-        for (lo, hi, label) in ((0, 12, "logic"), (20, 22, "flipswap"), (22, 27, "cofactors")):
+        for (lo, hi, label) in ((0, 12, "logic"), (30, 43, "forms"), (20, 22, "flipswap"), (22, 27, "cofactors")):
             out.append(spec("verif_c10", "c10.rs", "c10_ops", "c10_ops_%s_%s" % (label, fam), [fam, lo, hi], 8 * T(n) + 2,
                             tier=tr, n=n, fam=fam, mem=mem_for(n, 1.5), timeout=1200 if q else 3600, optional=(n >= 11),
                             covers={"reached": "SATISFIED", "last arm": "SATISFIED"},
@@ -489,6 +496,13 @@ def c10(tier, seed):
                             tier="quick" if n in (0, 1, 3) else "thorough", n=n, fam=fam, timeout=1800,
                             covers={"reached": "SATISFIED", "accepted": "SATISFIED"},
                             what="Lut%d vs Lut: from_hex_string accepts the same symbolic %d-byte strings and yields corresponding tables" % (n, hex_width(n))))
+    for n in range(0, 5):
+        fam = "s%d" % n
+        out.append(spec("verif_c04", "c04.rs", "c04_diff", "c04_diff_%s" % fam, [fam], 36,
+                        tier="quick" if n <= 3 else "thorough", n=n, fam=fam, mem=3 if n >= 3 else 1, timeout=3000,
+                        optional=(n == 4),
+                        covers={"reached": "SATISFIED", "npn arm": "SATISFIED"},
+                        what="Lut%d vs Lut: p/n/npn_canonization return the same representative, permutation and mask on the same symbolic function" % n))
     for (lut, ty, n) in (("Lut3", "u8", 3), ("Lut4", "u16", 4), ("Lut5", "u32", 5), ("Lut6", "u64", 6)):
         out.append(spec("verif_c10", "c10.rs", "c10_int", "c10_int_%s" % ty, [lut, ty, n], 10,
                         tier="quick", n=n, fam=lut,
@@ -552,15 +566,16 @@ def c13(tier, seed):
                         optional=(n >= 3),
                         covers={"reached": "SATISFIED", "term inside the enumeration": "SATISFIED", "term outside the enumeration": "SATISFIED"},
                         what="Ecube::all(%d): a symbolic term (over variables < 6) occurs exactly once iff its variables are < n; exactly 2^(n+1) items" % n))
-    kinds = "01v!"
-    pats_q = [(6, "v!v1"), (6, "vv!!"), (5, "!v0v"), (4, "vvvv"), (4, "0!v0"), (3, "1v!0"), (2, "0000"), (2, "!!vv"), (1, "v!01"), (0, "0110")]
+    kinds = "01v!zo"   # z: from_cubes([Ecube::zero()]), o: from_cubes([Ecube::one(), Ecube::zero()])
+    pats_q = [(6, "v!v1"), (6, "vv!!"), (5, "!v0v"), (4, "vvvv"), (4, "0!v0"), (3, "1v!0"), (2, "0000"), (2, "!!vv"), (1, "v!01"), (0, "0110"),
+              (3, "zv!0"), (4, "0zov"), (2, "zz00")]
     pats_t = [(7, "v!v!"), (8, "vv!1"), (6, "0v!0"), (5, "!!!!"), (3, "v0v0"), (0, "0000"), (0, "1111")]
     for (n, pat) in pats_q + pats_t:
         ks = [kinds.index(c) for c in pat]
         q = (n, pat) in pats_q
         name = "c13_soes_n%d_%s" % (n, pat.replace("!", "i"))
-        can_true = any(k != 0 for k in ks)
-        can_false = all(k != 1 for k in ks) and not (n >= 1 and any(ks[a] == 2 and ks[b] == 3 for a in range(4) for b in range(4)) and False)
+        can_true = any(k not in (0, 4) for k in ks)
+        can_false = all(k not in (1, 5) for k in ks) and not (n >= 1 and any(ks[a] == 2 and ks[b] == 3 for a in range(4) for b in range(4)) and False)
         out.append(spec("verif_c13", "c13.rs", "c13_soes", name, [n] + ks,
                         (1 << n) + 3, tier="quick" if q else "thorough", n=n, fam="Soes", timeout=2400,
                         mem=2 if n >= 6 else 1,
@@ -582,7 +597,7 @@ def c13(tier, seed):
 def c15(tier, seed):
     out = []
     kinds = "01v!"
-    pats_q = [(6, "v!v"), (5, "vv1"), (4, "!v0"), (3, "1!v"), (2, "00v"), (2, "vv!"), (1, "v!1"), (0, "011")]
+    pats_q = [(6, "v!v"), (5, "vv1"), (4, "!v0"), (3, "1!v"), (2, "00v"), (2, "vv!"), (1, "v!1"), (0, "011"), (0, "110"), (1, "11v"), (3, "11!")]
     pats_t = [(7, "v!v"), (8, "!!v"), (6, "111"), (4, "vvv"), (3, "0v0"), (0, "000")]
     for (n, pat) in pats_q + pats_t:
         ks = [kinds.index(c) for c in pat]
@@ -636,12 +651,17 @@ def c19(tier, seed):
             if T(n) >= 2:
                 claims["first and last word can differ"] = "SATISFIED"
                 claims["last word can be non-zero"] = "SATISFIED"
-            s = spec("verif_c19", "c19.rs", "c19_random", "c19_random_%s" % fam, [fam], 8 * T(n) + 3,
+            s = spec("verif_c19", "c19.rs", "c19_random", "c19_random_%s" % fam, [fam], max(8 * T(n), 80) + 3,
                      tier="quick" if q else "thorough", n=n, fam=fam, mem=mem_for(n), timeout=1800,
                      features=["rand"], covers={"reached": "SATISFIED"}, claim_covers=claims,
                      confirm_inst="c19_confirm!(c19_confirm_%s, %s, 0);" % (fam, fam), confirm_fn="c19_confirm_%s" % fam,
                      what="random() on %s n=%d with the RNG replaced by a stub returning arbitrary u64 values: for EVERY draw sequence the table is well-formed and each call consumes fresh draws; reachability claims: constant one / constant zero / differing words / differing calls" % (tname, n))
             out.append(s)
+    for fam, n in (("s0", 0), ("s3", 3), ("s5", 5), ("d2", 2), ("d5", 5), ("s7", 7)):
+        calls = 300 if T(n) == 1 else 140
+        out.append(spec("verif_c19", "c19.rs", "c19_history", "c19_history_%s" % fam, [fam, calls], max(calls, 80) + 3,
+                        tier="quick" if fam[0] == "s" else "thorough", n=n, fam=fam, timeout=3000, mem=2, features=["rand"],
+                        what="history of %d consecutive random() calls on %s n=%d with symbolic RNG outputs: every table is well-formed (state carried between calls cannot break it)" % (calls, "LutN" if fam[0] == "s" else "Lut", n)))
     return out
 
 
@@ -682,6 +702,24 @@ def c04_stubbed(prop):
                  what="%s_canonization on %s n=%d with operations::cmp replaced by the index-loop stand-in s_cmp (equivalence lemma k04_cmp_equiv): orbit lower bound, membership, certificate (see the unstubbed harness of the same name in the thorough tier)" % (grp, "LutN" if kind == "s" else "Lut", n))
         s["inst"] = "c04_%s!(%s c04_%s_stub_%s, %s, 36);" % (grp, STUB_CMP, grp, fam, fam)
         out.append(s)
+    # L0 dispatch lemma (kernel level): what the public entry points really pass to the walk and the decoder
+    for grp, gname in ((0, "p"), (1, "n"), (2, "npn")):
+        for n in range(2, 9):
+            for kind in ("s", "d"):
+                if kind == "d" and n not in (6, 7):
+                    continue
+                fam = fam_name(kind, n)
+                swaps_len = {2: 2, 3: 6, 4: 24, 5: 120, 6: 720, 7: 5040, 8: 40320}[n]
+                flips_len = 1 << n
+                u = max(flips_len if grp == 1 else max(swaps_len, flips_len), 8) + 3
+                heavy = grp != 1 and n >= 6
+                out.append(spec("verif_k04", "c04.rs+k04.rs", "k04_dispatch", "k04_dispatch_%s_%s" % (gname, fam), [fam, grp], u,
+                                tier="thorough" if heavy else "quick", n=n, fam=fam, level="kernel", stubbing=True,
+                                mem=(8 if n >= 7 else 2) if heavy else 1, mem_limit_gb=30 if heavy else 14, timeout=3600, optional=(heavy and n == 8),
+                                role="dispatch_%s" % gname,
+                                what="L0 dispatch lemma %s n=%d on %s: the public entry point passes the SAME sequence(s) to *_ind and *_res, and they are %s" % (
+                                    gname, n, "LutN" if kind == "s" else "Lut",
+                                    "closed, in range and covering (checked on the recorded sequence)" if (grp == 1 or n <= 6) else "the flips closed/in range/covering and the swaps equal to generate_swaps(n, true) (coverage by L2)")))
     # L1 walk lemmas (kernel level)
     for (n, q) in ((2, True), (5, True), (6, True), (7, True), (8, False)):
         t = T(n)
@@ -731,7 +769,7 @@ def c04_extra(scratch, tier, seed, log):
         if r.get("verdict") == "violation":
             n = r.get("n", 4)
             kind = 0 if " swaps " in r["harness"] else 1
-            count = {0: 1, 1: 4, 2: 16, 3: 256, 4: 3000, 5: 2000, 6: 300, 7: 20, 8: 3}.get(n, 3)
+            count = {0: 1, 1: 2, 2: 4, 3: 8, 4: 8, 5: 6, 6: 4, 7: 2, 8: 1}.get(n, 1)
             fn = "c04_confirm_%d_%d" % (n, kind)
             r["confirm"] = {"module": "verif_c04", "source": "c04.rs", "fn": fn,
                             "inst": "c04_confirm!(%s, %d, %d, %d, 0);" % (fn, n, kind, count)}
